@@ -90,6 +90,8 @@ static bool probe_inner(char fe, int n, std::string &why, vc::Conn &c) {
 }
 
 // ---- structured payload builders ---------------------------------------------------------------------------------
+// set by a builder when the byte stream it produced can in no reading be a request the application may see (reset per input)
+static std::string g_must_reject;
 static std::string pick_cl(FuzzedDataProvider &fdp, size_t actual) {
     switch (fdp.ConsumeIntegralInRange<int>(0, 13)) {
     case 0: return std::to_string(actual);
@@ -170,6 +172,8 @@ static std::string build_http(FuzzedDataProvider &fdp, std::string const &tag) {
             for (int i = 0; i < many; i++) out += "X-H" + std::to_string(i) + ": v" + std::to_string(i % 7) + "\r\n";
             out += "Connection: keep-alive\r\n";
         }
+        // a header section beyond the 16 KiB cap (plus one full read): must be refused, see oversize_header below
+        if (fdp.ConsumeIntegralInRange<int>(0, 15) == 1) out += "X-Huge: " + std::string((size_t)fdp.ConsumeIntegralInRange<int>(32768, 50000), 'H') + "\r\n";
         int nh = fdp.ConsumeIntegralInRange<int>(0, 4);
         for (int i = 0; i < nh; i++) {
             switch (fdp.ConsumeIntegralInRange<int>(0, 7)) {
@@ -212,6 +216,7 @@ static std::string build_scgi(FuzzedDataProvider &fdp, std::string const &tag) {
     case 0: lentxt = std::to_string(blk.size() + 1); break; case 1: lentxt = blk.size() ? std::to_string(blk.size() - 1) : "0"; break;
     case 2: lentxt = "-5"; break; case 3: lentxt = "16385"; break; case 4: lentxt = "99999999999999999999"; break; case 5: lentxt = "0"; break;
     case 6: lentxt = "1" + std::string(20, '0'); break;
+    case 7: { static const char *absurd[] = {"2147483647", "2147483000", "1073741825", "1500000000"}; lentxt = absurd[fdp.ConsumeIntegralInRange<int>(0, 3)]; break; }   // must not drive an allocation
     default: lentxt = std::to_string(blk.size());
     }
     std::string out = lentxt + (fdp.ConsumeIntegralInRange<int>(0, 12) ? ":" : ";") + blk + (fdp.ConsumeIntegralInRange<int>(0, 12) ? "," : ".") + body;
@@ -226,6 +231,20 @@ static std::string build_fcgi(FuzzedDataProvider &fdp, std::string const &tag) {
                  {"CONTENT_TYPE", fdp.ConsumeBool() ? "text/plain" : "application/x-www-form-urlencoded"}};
     std::string params = vc::fcgi_pairs(env);
     int id = fdp.ConsumeIntegralInRange<int>(0, 3);
+    if (fdp.ConsumeIntegralInRange<int>(0, 9) == 1) {
+        // a request that is well-formed except that a record of another type (same request id, non-empty) sits inside its STDIN
+        // stream while body bytes are still owed: invalid framing, the application must not see the request
+        std::string b = fdp.ConsumeRandomLengthString(120); if (b.size() < 2) b = "0123456789abcdef";
+        std::string inj = fdp.ConsumeRandomLengthString(40); if (inj.empty()) inj = "XYZ";
+        static const int types[] = {vc::FCGI_PARAMS, 8 /*FCGI_DATA*/, vc::FCGI_ABORT, 50, 6 /*FCGI_STDOUT*/};
+        int t = types[fdp.ConsumeIntegralInRange<int>(0, 4)]; int rid = 1 + id % 3;
+        size_t cut = 1 + fdp.ConsumeIntegralInRange<size_t>(0, b.size() - 2);
+        Pairs env2 = env; env2[0].second = std::to_string(b.size());
+        out = vc::fcgi_begin(rid, 1, fdp.ConsumeBool() ? 1 : 0) + vc::fcgi_record(vc::FCGI_PARAMS, rid, vc::fcgi_pairs(env2)) + vc::fcgi_record(vc::FCGI_PARAMS, rid, "") +
+              vc::fcgi_record(vc::FCGI_STDIN, rid, b.substr(0, cut)) + vc::fcgi_record(t, rid, inj) + vc::fcgi_record(vc::FCGI_STDIN, rid, b.substr(cut)) + vc::fcgi_record(vc::FCGI_STDIN, rid, "");
+        g_must_reject = "fcgi:stdin-interrupted-by-other-record-reaches-handler";
+        return out;
+    }
     if (fdp.ConsumeBool()) {
         // a complete request in the right order; each element may be damaged, dropped or duplicated
         std::vector<std::string> seq = {vc::fcgi_begin(id, 1, fdp.ConsumeBool() ? 1 : 0), vc::fcgi_record(vc::FCGI_PARAMS, id, params), vc::fcgi_record(vc::FCGI_PARAMS, id, ""),
@@ -280,7 +299,7 @@ extern "C" int LLVMFuzzerTestOneInput(const uint8_t *data, size_t size) {
     int after = fdp.ConsumeIntegralInRange<int>(0, 3);            // 0: keep open, 1: half-close, 2: close, 3: reset
     size_t cut_percent = fdp.ConsumeIntegralInRange<size_t>(0, 100);   // how much is sent before the mid-probe
     int truncate_at = fdp.ConsumeIntegralInRange<int>(0, 6) == 0 ? fdp.ConsumeIntegralInRange<int>(0, 4000) : -1;  // peer disconnects inside the payload
-    std::string payload;
+    std::string payload; g_must_reject.clear();
     if (mode == 0) {
         payload = fdp.ConsumeRemainingBytesAsString();
         size_t p; while ((p = payload.find("@@")) != std::string::npos) payload.replace(p, 2, tag);
@@ -352,6 +371,7 @@ extern "C" int LLVMFuzzerTestOneInput(const uint8_t *data, size_t size) {
             if (e.what.compare(0, 7, "filter.") == 0) per_filter[e.tag.substr(0, e.tag.find('|'))].push_back(e.what);
         }
         VF_CHECK(handlers_this <= bound, "handler-called-more-often-than-requests", std::to_string(handlers_this) + " handler calls tagged " + tag + " but the bytes hold at most " + std::to_string(bound) + " requests");
+        if (!g_must_reject.empty()) { VR.cls("malformed.must_reject." + g_must_reject); VF_CHECK(handlers_this == 0, g_must_reject, std::to_string(handlers_this) + " handler call(s) for a byte stream that holds no acceptable request"); }
         VF_CHECK(!(oversize_header && handlers_this), "http:oversized-header-reaches-handler", "no end of headers within 32 KiB, yet the handler ran " + std::to_string(handlers_this) + " time(s)");
         if (handlers_this) { VR.cls("malformed.reached_handler"); VR.nontrivial(vr::fnv(payload)); }
         for (auto &kv : per_filter) {
